@@ -84,12 +84,13 @@ func (m *shardedMap[V]) SetShouldUpdateFn(f updateFn[V]) {
 // It guarantees that any value in the Map will be visited only once.
 // The set of values visited by IterValues is non-deterministic.
 func (sm *shardedMap[V]) IterValues(cb func(v V) (stop bool)) {
-	for _, shard := range sm.shards {
+	for si, shard := range sm.shards {
 		stopped := func() bool {
+			verifYield(verifSiteStoreIterShard, uint64(si))
 			shard.RLock()
 			defer shard.RUnlock()
 
-			for _, item := range shard.data {
+			for _, item := range verifRange(shard.data, verifRangeIter) {
 				if !item.expiration.IsZero() && time.Now().After(item.expiration) {
 					continue
 				}
@@ -137,6 +138,7 @@ func (sm *shardedMap[V]) Cleanup(policy *defaultPolicy[V], onEvict func(item *It
 
 func (sm *shardedMap[V]) Clear(onEvict func(item *Item[V])) {
 	for i := uint64(0); i < numShards; i++ {
+		verifYield(verifSiteStoreClearShard, i)
 		sm.shards[i].Clear(onEvict)
 	}
 	sm.expiryMap.clear()
@@ -164,6 +166,7 @@ func (m *lockedMap[V]) setShouldUpdateFn(f updateFn[V]) {
 }
 
 func (m *lockedMap[V]) get(key, conflict uint64) (V, bool) {
+	verifYield(verifSiteStoreGet, key)
 	m.RLock()
 	item, ok := m.data[key]
 	m.RUnlock()
@@ -182,6 +185,7 @@ func (m *lockedMap[V]) get(key, conflict uint64) (V, bool) {
 }
 
 func (m *lockedMap[V]) Expiration(key uint64) time.Time {
+	verifYield(verifSiteStoreExpiration, key)
 	m.RLock()
 	defer m.RUnlock()
 	return m.data[key].expiration
@@ -193,6 +197,7 @@ func (m *lockedMap[V]) Set(i *Item[V]) {
 		return
 	}
 
+	verifYield(verifSiteStoreSet, i.Key)
 	m.Lock()
 	defer m.Unlock()
 	item, ok := m.data[i.Key]
@@ -222,6 +227,7 @@ func (m *lockedMap[V]) Set(i *Item[V]) {
 }
 
 func (m *lockedMap[V]) Del(key, conflict uint64) (uint64, V) {
+	verifYield(verifSiteStoreDel, key)
 	m.Lock()
 	defer m.Unlock()
 	item, ok := m.data[key]
@@ -241,6 +247,7 @@ func (m *lockedMap[V]) Del(key, conflict uint64) (uint64, V) {
 }
 
 func (m *lockedMap[V]) Update(newItem *Item[V]) (V, bool) {
+	verifYield(verifSiteStoreUpdate, newItem.Key)
 	m.Lock()
 	defer m.Unlock()
 	item, ok := m.data[newItem.Key]
@@ -270,7 +277,7 @@ func (m *lockedMap[V]) Clear(onEvict func(item *Item[V])) {
 	defer m.Unlock()
 	i := &Item[V]{}
 	if onEvict != nil {
-		for _, si := range m.data {
+		for _, si := range verifRange(m.data, verifRangeClear) {
 			i.Key = si.key
 			i.Conflict = si.conflict
 			i.Value = si.value
